@@ -13,9 +13,12 @@ pub const LEXEMES: &[&str] = &[
     "(", ")", "[", "]", "{", "}", "=", "#", "<", "<=", ">", ">=", ":=", ":", ",", ";", "+", "-",
     "*", "/", // symbols
     "if", "else", "while", "array", "of", "proc", "ref", "type", "var", // keywords
-    "a", "i", "iff", "if_", "if1", "_x", "x1", "X1F", "ofa", "Var", // identifiers near keywords ("0" + "X1F" is no hex literal: the prefix is a lower-case x)
+    "a", "i", "iff", "if_", "if1", "_x", "x1", "X1F", "ofa", "Var",
+    // a keyword continued by 256 letters (258 characters: an identifier)
+    "ifaaaaaaaaaaaaaaaaaaaaaaaaaaaaaaaaaaaaaaaaaaaaaaaaaaaaaaaaaaaaaaaaaaaaaaaaaaaaaaaaaaaaaaaaaaaaaaaaaaaaaaaaaaaaaaaaaaaaaaaaaaaaaaaaaaaaaaaaaaaaaaaaaaaaaaaaaaaaaaaaaaaaaaaaaaaaaaaaaaaaaaaaaaaaaaaaaaaaaaaaaaaaaaaaaaaaaaaaaaaaaaaaaaaaaaaaaaaaaaaaaaaaaaaaaaaaaaaa",
+    // identifiers near keywords ("0" + "X1F" is no hex literal: the prefix is a lower-case x)
     "0", "7", "2147483647", "4294967296", "00000000001", "04294967295", // decimal (the last two: leading zeros, more than ten digits)
-    "0x1F", "0xab", "0xFFFFFFFF", "0x100000000", "0x", // hexadecimal (last one malformed)
+    "0x1F", "0xab", "0xFFFFFFFF", "0x100000000", "0x10000000000000001", "0x", // hexadecimal (17 digits: out of range whatever the width of the accumulator; last one malformed)
     "'a'", "'\\n'", "' '", "'\\'", "'", // character literals (a backslash is an ordinary character; last one malformed)
     "// c\n", "// d", "//", // comments: terminated, at end of text, empty
 ];
@@ -109,9 +112,12 @@ pub fn check_conformance(text: &str, toks: &[Token], reference: &[RTok]) -> Resu
             (tt, RKind::Kw(k)) => kw_of(tt) == Some(*k),
             (TokenType::Ident(a), RKind::Ident(b)) => a == b,
             (TokenType::Int(IntResult::Int(v)), RKind::Int(Some(w))) => v == w,
-            // out-of-range literal: SPL defines no value, only kind and range are compared
+            // out-of-range literal: SPL defines no value - the token must not carry one (a
+            // literal that silently wraps around would be a different number)
+            (TokenType::Int(IntResult::Int(_)), RKind::Int(None)) => false,
             (TokenType::Int(_), RKind::Int(None)) => true,
             (TokenType::Hex(IntResult::Int(v)), RKind::Hex(Some(w))) => v == w,
+            (TokenType::Hex(IntResult::Int(_)), RKind::Hex(None)) => false,
             (TokenType::Hex(_), RKind::Hex(None)) => true,
             (TokenType::Char(c), RKind::Char(code)) => *c as u32 == *code,
             (TokenType::Comment(a), RKind::Comment(b)) => a.trim_end_matches('\r') == b.trim_end_matches('\r'),
@@ -136,6 +142,9 @@ pub fn check_conformance(text: &str, toks: &[Token], reference: &[RTok]) -> Resu
         };
         if has_value && !t.errors.is_empty() {
             return Err(format!("spurious lexical error on valid lexeme {:?}: {:?}", r.kind, t.errors));
+        }
+        if !has_value && t.errors.is_empty() {
+            return Err(format!("no lexical error on the out-of-range literal {:?}", &text[r.start..r.end]));
         }
     }
     Ok(())
